@@ -6,6 +6,7 @@ import CircuitModel.Logic
 import CircuitModel.Spec.Circuit
 import CircuitModel.CircuitOps
 import CircuitModel.Spec.C03
+import CircuitModel.CircuitMid
 namespace CM
 open SpecCircuit
 
@@ -220,21 +221,37 @@ partial def runCircuitOps (ck : CloserKind) (c : Circ OState CState) (cfgSpec : 
         let c := setAns c ans
         let adm := admission cfgSpec ck rb.openBefore ans
         let pv := ans.prevent
-        let (c', obs, res) := execute openerI closerI c op.ctx op.run op.fb
+        -- `mid=<key>:<value>`: the run function itself reconfigures the circuit while it runs (CircuitMid.lean)
+        let midKV : Option (String × String) := (kvGet kvs "mid").bind fun v => match v.splitOn ":" with | [k, x] => some (k, x) | _ => none
+        let mid : Option LiveCfg := midKV.map fun kv => parseCfg [kv] c.cfg
+        let (c', obs, res) := executeMid openerI closerI c op.ctx op.run op.fb mid
         let mo := mkObs c' obs res op
+        let midOnlyTimeout := match midKV with | some (k, _) => k == "to" | none => true
         let (spec, rb') := match parseObs op real with
           | none =>
             -- C11: "without ... panic": a panic that is not the one the scripted run function / fallback raised
             -- comes from the library itself
             ((if (real.splitOn " ").contains "res=panic:other" then "!C11:the library itself panicked during a call (neither the run function nor the fallback raised it)" else "-"), rb)
           | some ro =>
+            -- a setting other than the timeout changed under the call: only the verdicts that are about what is
+            -- read AFTER the function returned are evaluated, under the new settings
+            if !midOnlyTimeout then
+              let cfgNew := if ro.runCalls != 0 then (mid.getD cfgSpec) else cfgSpec
+              (joinVerdicts [("C09", verdictC09 cfgNew rb.lastNotif ro.emits ro.openAfter ro.fanOk),
+                ("C12", (verdictC12 ro.emits ro.readings).orElse fun _ => verdictC12o ro.emits ro.readings),
+                ("C03", if ck == CloserKind.hystrix then SpecC03.verdictExec rb.c03 cfgNew rb.openBefore ro else none)],
+               { c03 := rb.c03.afterExec rb.openBefore ro, openBefore := ro.openAfter, lastNotif := ((notifs ro.emits).getLast?).orElse fun _ => rb.lastNotif, conc := ro.conc, concFb := ro.concFb })
+            else
             (joinVerdicts [("C01", verdictC01 cfgSpec adm pv op ro), ("C05", verdictC05 cfgSpec adm pv op ro),
               ("C06", verdictC06 cfgSpec op ro), ("C02", verdictC02 cfgSpec op ro), ("C07", verdictC07 cfgSpec op ro), ("C08", verdictC08 cfgSpec rb.openBefore pv op ro),
               ("C09", verdictC09 cfgSpec rb.lastNotif ro.emits ro.openAfter ro.fanOk),
               ("C10", verdictC10 cfgSpec rb.openBefore rb.conc rb.concFb op ro), ("C12", (verdictC12 ro.emits ro.readings).orElse fun _ => verdictC12o ro.emits ro.readings),
-              ("C03", if ck == .hystrix then SpecC03.verdictExec rb.c03 cfgSpec rb.openBefore ro else none)],
+              ("C03", if ck == CloserKind.hystrix then SpecC03.verdictExec rb.c03 cfgSpec rb.openBefore ro else none)],
              { c03 := rb.c03.afterExec rb.openBefore ro, openBefore := ro.openAfter, lastNotif := ((notifs ro.emits).getLast?).orElse fun _ => rb.lastNotif, conc := ro.conc, concFb := ro.concFb })
-        runCircuitOps ck c' cfgSpec rb' rest (acc.push (fmtExecObs mo ++ "\t" ++ spec))
+        -- the settings the specification tracks follow the REAL call: they change iff its run function was invoked
+        let realRan : Bool := match parseObs op real with | some ro => ro.runCalls != 0 | none => mo.runCalls != 0
+        let cfgSpec' := match mid with | some m => if realRan then { m with iei := cfgSpec.iei } else cfgSpec | none => cfgSpec
+        runCircuitOps ck c' cfgSpec' rb' rest (acc.push (fmtExecObs mo ++ "\t" ++ spec))
     | some "open" | some "close" =>
       let isOpenOp := toks.head? == some "open"
       let (c', obs) := if isOpenOp then manualOpen openerI closerI c else manualClose openerI closerI c
